@@ -13,6 +13,8 @@ pub fn eval(op: u64, a: f64, bb: f64) -> Option<f64> {
         6 => gamma(a),
         7 => gamma_lr(a, bb),
         8 => gamma_ur(a, bb),
+        // the Gamma quantile as the sampler calls it (its own model is checked by C12)
+        9 => momtrop::gamma::inverse_gamma_lr_impl(a, bb, 50, 5.0),
         _ => panic!("op"),
     });
     r.ok()
